@@ -116,3 +116,61 @@ func VerifC16_Cut() {
 	}
 	_ = proj
 }
+
+func init() {
+	vrt.Register("VerifC16_ZeroValues", VerifC16_ZeroValues)
+}
+
+// verifTypeByIndex returns the descriptor of the K-th field type and the reference encoding of its zero value.
+func verifTypeByIndex(k int) (*thrift.TypeDescriptor, byte, []byte) {
+	inner := thrift.VerifStruct("Inner", thrift.Options{}, thrift.VField{ID: 1, Name: "x", Type: thrift.VerifBasic(thrift.I32), Req: 2})
+	switch k {
+	case 0:
+		return thrift.VerifBasic(thrift.BOOL), vrt.TBOOL, []byte{0}
+	case 1:
+		return thrift.VerifBasic(thrift.BYTE), vrt.TBYTE, []byte{0}
+	case 2:
+		return thrift.VerifBasic(thrift.I16), vrt.TI16, []byte{0, 0}
+	case 3:
+		return thrift.VerifBasic(thrift.I32), vrt.TI32, []byte{0, 0, 0, 0}
+	case 4:
+		return thrift.VerifBasic(thrift.I64), vrt.TI64, make([]byte, 8)
+	case 5:
+		return thrift.VerifBasic(thrift.DOUBLE), vrt.TDOUBLE, make([]byte, 8)
+	case 6:
+		return thrift.VerifBasic(thrift.STRING), vrt.TSTRING, []byte{0, 0, 0, 0}
+	case 7:
+		return thrift.VerifList(thrift.VerifBasic(thrift.I64)), vrt.TLIST, vrt.PutListHdr(nil, vrt.TI64, 0)
+	case 8:
+		return thrift.VerifSet(thrift.VerifBasic(thrift.STRING)), vrt.TSET, vrt.PutListHdr(nil, vrt.TSTRING, 0)
+	case 9:
+		return thrift.VerifMap(thrift.VerifBasic(thrift.STRING), thrift.VerifBasic(thrift.I32)), vrt.TMAP, vrt.PutMapHdr(nil, vrt.TSTRING, vrt.TI32, 0)
+	case 10:
+		return thrift.VerifMap(thrift.VerifBasic(thrift.I64), inner), vrt.TMAP, vrt.PutMapHdr(nil, vrt.TI64, vrt.TSTRUCT, 0)
+	default:
+		return inner, vrt.TSTRUCT, []byte{0}
+	}
+}
+
+// VerifC16_ZeroValues: a default-requiredness target field of each type, absent from the value, is written
+// under WriteDefault with the zero value of its declared type (the empty struct for struct types).
+func VerifC16_ZeroValues() {
+	k := vrt.Param("K")
+	ft, tt, zero := verifTypeByIndex(k)
+	src := thrift.VerifStruct("R", thrift.Options{}, thrift.VField{ID: 1, Name: "a", Type: thrift.VerifBasic(thrift.I32), Req: 2})
+	dst := thrift.VerifStruct("R", thrift.Options{},
+		thrift.VField{ID: 1, Name: "a", Type: thrift.VerifBasic(thrift.I32), Req: 2},
+		thrift.VField{ID: 2, Name: "z", Type: ft, Req: 0})
+	a := int(int32(vrt.U32()))
+	in := append(vrt.PutBE32(vrt.PutField(nil, vrt.TI32, 1), a), 0)
+	out, err := NewValue(src, in).MarshalTo(dst, &Options{WriteDefault: true})
+	vrt.Assert(err == nil, "C16.zero.noerror")
+	if err != nil {
+		return
+	}
+	exp := vrt.PutBE32(vrt.PutField(nil, vrt.TI32, 1), a)
+	exp = append(vrt.PutField(exp, tt, 2), zero...)
+	exp = append(exp, 0)
+	vrt.Reach("filled")
+	vrt.Assert(vrt.BytesEq(out, 0, len(out), exp, 0, len(exp)), "C16.zero.value-of-declared-type")
+}
